@@ -1,0 +1,251 @@
+//go:build verif
+
+// Hooks for the verification harness in /verif. Built only with -tags verif.
+// They add entry points; they do not change any existing behaviour.
+package modbus
+
+import (
+	"crypto/x509"
+	"io"
+	"log"
+	"net"
+	"sync/atomic"
+	"time"
+)
+
+var verifQuietLogger = log.New(io.Discard, "", 0)
+
+// VerifNewClientOnConn creates a client with NewClient() and attaches a
+// transport built on conn the way Open() does for the configured scheme
+// (conn stands in for the dialled socket / serial port). UDP schemes need a
+// *net.UDPConn, as in Open().
+func VerifNewClientOnConn(conf *ClientConfiguration, conn net.Conn) (mc *ModbusClient, err error) {
+	mc, err = NewClient(conf)
+	if err != nil {
+		return
+	}
+
+	mc.lock.Lock()
+	defer mc.lock.Unlock()
+
+	switch mc.transportType {
+	case modbusRTU, modbusRTUOverTCP:
+		discard(conn)
+		mc.transport = newRTUTransport(
+			conn, mc.conf.URL, mc.conf.Speed, mc.conf.Timeout, mc.conf.Logger)
+	case modbusRTUOverUDP:
+		mc.transport = newRTUTransport(
+			newUDPSockWrapper(conn),
+			mc.conf.URL, mc.conf.Speed, mc.conf.Timeout, mc.conf.Logger)
+	case modbusTCP:
+		mc.transport = newTCPTransport(conn, mc.conf.Timeout, mc.conf.Logger)
+	case modbusTCPOverTLS:
+		mc.transport = newTCPTransport(
+			newTLSSockWrapper(conn), mc.conf.Timeout, mc.conf.Logger)
+	case modbusTCPOverUDP:
+		mc.transport = newTCPTransport(
+			newUDPSockWrapper(conn), mc.conf.Timeout, mc.conf.Logger)
+	default:
+		err = ErrConfigurationError
+	}
+
+	return
+}
+
+// VerifClientConfig is the effective client configuration after NewClient().
+type VerifClientConfig struct {
+	TransportType uint
+	URL           string
+	Speed         uint
+	DataBits      uint
+	Parity        uint
+	StopBits      uint
+	Timeout       time.Duration
+	UnitId        uint8
+	Endianness    Endianness
+	WordOrder     WordOrder
+	HasTransport  bool
+	LastTxnId     int // -1 when the transport is not an MBAP transport
+}
+
+func (mc *ModbusClient) VerifConfig() (c VerifClientConfig) {
+	mc.lock.Lock()
+	defer mc.lock.Unlock()
+
+	c = VerifClientConfig{
+		TransportType: uint(mc.transportType),
+		URL:           mc.conf.URL,
+		Speed:         mc.conf.Speed,
+		DataBits:      mc.conf.DataBits,
+		Parity:        mc.conf.Parity,
+		StopBits:      mc.conf.StopBits,
+		Timeout:       mc.conf.Timeout,
+		UnitId:        mc.unitId,
+		Endianness:    mc.endianness,
+		WordOrder:     mc.wordOrder,
+		HasTransport:  mc.transport != nil,
+		LastTxnId:     -1,
+	}
+	if tt, ok := mc.transport.(*tcpTransport); ok {
+		c.LastTxnId = int(tt.lastTxnId)
+	}
+
+	return
+}
+
+// VerifServerConfig is the effective server configuration after NewServer().
+type VerifServerConfig struct {
+	TransportType uint
+	URL           string
+	Timeout       time.Duration
+	MaxClients    uint
+}
+
+func (ms *ModbusServer) VerifConfig() (c VerifServerConfig) {
+	ms.lock.Lock()
+	defer ms.lock.Unlock()
+
+	c = VerifServerConfig{
+		TransportType: uint(ms.transportType),
+		URL:           ms.conf.URL,
+		Timeout:       ms.conf.Timeout,
+		MaxClients:    ms.conf.MaxClients,
+	}
+
+	return
+}
+
+// VerifServeConn runs the server's request loop on conn as handleTCPClient
+// does for a plain TCP session (no admission, no removal).
+func (ms *ModbusServer) VerifServeConn(conn net.Conn, clientAddr string, clientRole string) {
+	ms.handleTransport(
+		newTCPTransport(conn, ms.conf.Timeout, ms.conf.Logger),
+		clientAddr, clientRole)
+}
+
+// VerifListenAddr returns the bound listener address (nil if never started).
+func (ms *ModbusServer) VerifListenAddr() (addr net.Addr) {
+	ms.lock.Lock()
+	defer ms.lock.Unlock()
+
+	if ms.tcpListener != nil {
+		addr = ms.tcpListener.Addr()
+	}
+
+	return
+}
+
+// VerifSnapshot returns (started, number of registered client connections).
+func (ms *ModbusServer) VerifSnapshot() (started bool, clients int) {
+	ms.lock.Lock()
+	defer ms.lock.Unlock()
+
+	return ms.started, len(ms.tcpClients)
+}
+
+// VerifExtractRole runs role extraction on an in-memory certificate.
+func VerifExtractRole(cert *x509.Certificate) (role string) {
+	var ms = &ModbusServer{logger: newLogger("verif", verifQuietLogger)}
+
+	return ms.extractRole(cert)
+}
+
+// VerifCRC returns the two CRC bytes the RTU transport appends (init; add
+// each chunk in turn; value).
+func VerifCRC(chunks ...[]byte) (out []byte) {
+	var c crc
+
+	c.init()
+	for _, chunk := range chunks {
+		c.add(chunk)
+	}
+
+	return c.value()
+}
+
+// VerifCRCStep feeds one byte into a CRC register holding state.
+func VerifCRCStep(state uint16, b byte) uint16 {
+	var c = crc{crc: state}
+
+	c.add([]byte{b})
+
+	return c.crc
+}
+
+// VerifCRCIsEqual runs init/add/isEqual.
+func VerifCRCIsEqual(data []byte, low byte, high byte) bool {
+	var c crc
+
+	c.init()
+	c.add(data)
+
+	return c.isEqual(low, high)
+}
+
+func VerifAssembleMBAP(txnId uint16, unitId uint8, fc uint8, payload []byte) []byte {
+	var tt = &tcpTransport{}
+
+	return tt.assembleMBAPFrame(txnId, &pdu{unitId: unitId, functionCode: fc, payload: payload})
+}
+
+func VerifAssembleRTU(unitId uint8, fc uint8, payload []byte) []byte {
+	var rt = &rtuTransport{}
+
+	return rt.assembleRTUFrame(&pdu{unitId: unitId, functionCode: fc, payload: payload})
+}
+
+func VerifExpectedResponseLength(responseCode uint8, responseLength uint8) (int, error) {
+	return expectedResponseLenth(responseCode, responseLength)
+}
+
+func VerifMapExceptionCodeToError(code uint8) error { return mapExceptionCodeToError(code) }
+func VerifMapErrorToExceptionCode(err error) uint8  { return mapErrorToExceptionCode(err) }
+
+// VerifSerialTimings returns (character time, inter-frame delay) as computed
+// by newRTUTransport for the given speed.
+func VerifSerialTimings(speed uint) (t1 time.Duration, t35 time.Duration) {
+	var rt = newRTUTransport(nil, "verif", speed, time.Second, verifQuietLogger)
+
+	return rt.t1, rt.t35
+}
+
+// codec pass-throughs
+func VerifUint16ToBytes(e Endianness, v uint16) []byte              { return uint16ToBytes(e, v) }
+func VerifUint16sToBytes(e Endianness, v []uint16) []byte           { return uint16sToBytes(e, v) }
+func VerifBytesToUint16(e Endianness, b []byte) uint16              { return bytesToUint16(e, b) }
+func VerifBytesToUint16s(e Endianness, b []byte) []uint16           { return bytesToUint16s(e, b) }
+func VerifUint32ToBytes(e Endianness, w WordOrder, v uint32) []byte { return uint32ToBytes(e, w, v) }
+func VerifBytesToUint32s(e Endianness, w WordOrder, b []byte) []uint32 {
+	return bytesToUint32s(e, w, b)
+}
+func VerifUint64ToBytes(e Endianness, w WordOrder, v uint64) []byte { return uint64ToBytes(e, w, v) }
+func VerifBytesToUint64s(e Endianness, w WordOrder, b []byte) []uint64 {
+	return bytesToUint64s(e, w, b)
+}
+func VerifFloat32ToBytes(e Endianness, w WordOrder, v float32) []byte { return float32ToBytes(e, w, v) }
+func VerifBytesToFloat32s(e Endianness, w WordOrder, b []byte) []float32 {
+	return bytesToFloat32s(e, w, b)
+}
+func VerifFloat64ToBytes(e Endianness, w WordOrder, v float64) []byte { return float64ToBytes(e, w, v) }
+func VerifBytesToFloat64s(e Endianness, w WordOrder, b []byte) []float64 {
+	return bytesToFloat64s(e, w, b)
+}
+func VerifEncodeBools(in []bool) []byte           { return encodeBools(in) }
+func VerifDecodeBools(q uint16, in []byte) []bool { return decodeBools(q, in) }
+
+// VerifNewUDPSockWrapper exposes the datagram-to-stream adapter.
+func VerifNewUDPSockWrapper(sock net.Conn) net.Conn { return newUDPSockWrapper(sock) }
+
+// scheduling points: the harness installs a function that is called at the
+// points marked verifYield(...) in server.go and may block there.
+var verifScheduler atomic.Value // of func(point string, sock net.Conn)
+
+func VerifSetScheduler(f func(point string, sock net.Conn)) {
+	verifScheduler.Store(f)
+}
+
+func verifYield(point string, sock net.Conn) {
+	if f, ok := verifScheduler.Load().(func(point string, sock net.Conn)); ok && f != nil {
+		f(point, sock)
+	}
+}
